@@ -85,7 +85,7 @@ theorem kfdcr_cap_le_wmax_int (inp : WalkInput) (hb : BaseWF inp.base) (hint : i
     (n : Rat) ≤ (inp.withK j).wmax false := by
   rw [kfdcr_cap_attr inp hb hattr j e (kfdcr_active_base inp hb e he).1] at hn
   split at hn
-  · exact kfdcr_le_wmax inp hint j hj n e he hn
+  · exact kfdcr_le_wmax inp hint j hj n e he (Rat.le_trans hn (Rat.floor_le _))
   · obtain ⟨e1, he1, h1⟩ := hM
     exact kfdcr_le_wmax inp hint j hj n e1 he1 (Rat.le_trans hn h1)
 
@@ -193,7 +193,7 @@ theorem kfdcr_range_int_cons (hst : inp.starts = []) (hen : inp.ends = []) (hign
           rw [if_pos h]
           have : ((1 : Nat) : Rat) ≤ ((n i : Nat) : Rat) := Rat.natCast_le_natCast.2 (hfam i h).1
           simpa using this
-        exact cap_adequate_int_proof (nA + m) (multsOf inp.st.source inp.st.sink walk) w (inp.f e) e hw0
+        exact cap_adequate_floor_proof (nA + m) (multsOf inp.st.source inp.st.sink walk) w (inp.f e) e hw0
           (hdecJ e hact) i hi h1
       | false =>
         rw [kfdcCap_eq (inp.withK (nA + m)) e he]
@@ -383,7 +383,7 @@ theorem kfdcr_range_rat_cons (hfloat : inp.weightInt = false) (hae : inp.cfg.all
     intro e he
     rw [kfdcr_cap_attr inp hb hattr k e (kfdcr_active_base inp hb e he).1]
     split
-    · exact hfM e he
+    · exact Rat.le_trans (Rat.floor_le _) (hfM e he)
     · exact hM1
   have hjm1 : 1 ≤ nA + m := by omega
   refine ⟨nA + m, by omega, ?_⟩
